@@ -335,7 +335,7 @@ def guard_cases(ctx, scale):
             for c in range(0, cap - n + 2):
                 for ii in range(0, n + 1):
                     out.append('gl insert %d %d %d %d %d' % (n, cap, i, c, ii))
-            out.append('gl aaddback %d %d 0 0 %d' % (n, cap, i))     # Array::AddBack(const Item&), item = element i (aliased) or external
+            out.append('gl aaddback %d %d 0 0 %d' % (n, cap, i)); out.append('gl aaddbackm %d %d 0 0 %d' % (n, cap, i))     # Array::AddBack(const Item&), item = element i (aliased) or external
             for c in range(0, cap - n + 4):          # Array::Insert itself: also counts that force a reallocation
                 for ii in range(0, n + 1):
                     out.append('gl ainsert %d %d %d %d %d' % (n, cap, i, c, ii))
@@ -478,7 +478,9 @@ def gen_array_facts(ctx):
     def stmt(st):
         st0 = sw(st); k = st0.get('kind')
         if k == 'DeclStmt':
-            v = [x for x in st0['inner'] if x.get('kind') == 'VarDecl'][0]
+            vds_ = [x for x in st0['inner'] if x.get('kind') == 'VarDecl']
+            if not vds_: return 'typedef'
+            v = vds_[0]
             init = [x for x in v.get('inner', []) if isinstance(x, dict) and ('Expr' in x.get('kind', '') or x.get('kind', '').endswith('Literal') or x.get('kind', '').endswith('Operator'))]
             return 'decl %s = %s' % (v['name'], expr(init[0]) if init else '-')
         if k == 'IfStmt':
@@ -486,6 +488,9 @@ def gen_array_facts(ctx):
             t = 'if %s { %s }' % (expr(parts[0]), '; '.join(stmts(parts[1])))
             if len(parts) > 2: t += ' else { %s }' % '; '.join(stmts(parts[2]))
             return t
+        if k == 'ForStmt':
+            ini, _cv, cond, inc, body = (st0['inner'] + [{}] * 5)[:5]
+            return 'for (%s; %s; %s) { %s }' % (stmt(ini) if ini else '', expr(cond) if cond else '', expr(inc) if inc else '', '; '.join(stmts(body)))
         if k == 'CXXTryStmt': return 'try { %s }' % '; '.join(stmts(st0['inner'][0]))
         if k == 'ReturnStmt': return ('return ' + expr(st0['inner'][0])) if st0.get('inner') else 'return'
         if k in ('CallExpr', 'CXXMemberCallExpr', 'CXXOperatorCallExpr'): return call(st0)
@@ -516,6 +521,23 @@ def gen_array_facts(ctx):
         nogrow = ng_[0]
         shrink = stmts(body_of('Shrink', lambda d: npar(d) == ['capacity']))
         reserve = stmts(body_of('Reserve', lambda d: True))
+        more = [('add_back_move_stmts', stmts(body_of('AddBack', lambda d: '&&' in d['type']['qualType']))),
+                ('insert_rvalue_stmts', stmts(body_of('Insert', lambda d: npar(d) == ['index', 'item'] and '&&' in d['type']['qualType']))),
+                ('remove_back_stmts', stmts(body_of('RemoveBack', lambda d: True))), ('pv_remove_back_stmts', stmts(body_of('pvRemoveBack', lambda d: True))),
+                ('clear_stmts', stmts(body_of('Clear', lambda d: True)))]
+        def tmpl(name, canon):
+            ls_ = [stmts([x for x in d['inner'] if x.get('kind') == 'CompoundStmt'][0]) for d in cxx2coq.method_decls(spec, name)]
+            ls_ = [[canon(t_) for t_ in l_] for l_ in ls_]
+            if not ls_ or any(l_ != ls_[0] for l_ in ls_): raise cxx2coq.TranslationError('%s: no body / the instantiations differ' % name)
+            return ls_[0]
+        more.append(('insert_crt_stmts', tmpl('InsertCrt', lambda t_: t_)))
+        more.append(('set_count_crt_stmts', tmpl('SetCountCrt', lambda t_: t_)))
+        # ArrayShifter::Insert (input iterators)
+        cfg4 = {'tu': os.path.join(ctx.pdir, 'inst_guards.cpp'), 'filter': 'ArrayShifter', 'class': 'ArrayShifter', 'includes': [os.path.join(ctx.repo, 'include')]}
+        shspec = cxx2coq.find_spec(cxx2coq.load_objs(cxx2coq.dump_ast(cfg4, ctx.repo)), cfg4)
+        ds4 = cxx2coq.method_decls(shspec, 'Insert')
+        if len(ds4) != 1: raise cxx2coq.TranslationError('ArrayShifter::Insert: %d candidate bodies' % len(ds4))
+        more.append(('shifter_insert_input_stmts', stmts([x for x in ds4[0]['inner'] if x.get('kind') == 'CompoundStmt'][0])))
         # momo::stdish::vector: the body of each forwarding member
         cfg2 = {'tu': os.path.join(ctx.pdir, 'inst_stdish.cpp'), 'filter': 'stdish::vector', 'class': 'vector', 'includes': [os.path.join(ctx.repo, 'include')]}
         vspec = cxx2coq.find_spec(cxx2coq.load_objs(cxx2coq.dump_ast(cfg2, ctx.repo)), cfg2)
@@ -552,6 +574,7 @@ def gen_array_facts(ctx):
                '(* ... of Array::pvAddBackGrow(Item&& item, std::true_type) *)\n' + lst('add_back_grow_move_stmts', abm) +
                '(* Array::AddBack(const Item&), pvAddBackNogrow(creator), Shrink(size_t), Reserve(size_t) *)\n' + lst('add_back_copy_stmts', addback) + lst('add_back_nogrow_stmts', nogrow) +
                lst('array_shrink_stmts', shrink) + lst('array_reserve_stmts', reserve) +
+               '(* AddBack(Item&&), Insert(index, Item&&), RemoveBack, pvRemoveBack, Clear, InsertCrt, SetCountCrt, ArrayShifter::Insert(input iterators) *)\n' + ''.join(lst(n_, b_) for n_, b_ in more) +
                '(* momo::stdish::vector: the body of each forwarding member *)\n' + ''.join(lst(n_, b_) for n_, b_ in vfacts))
         if not os.path.exists(out) or open(out).read() != txt:
             open(out, 'w').write(txt)
